@@ -284,9 +284,11 @@ def check(program: Program, run: Run) -> None:
                     val = recv.args[2]
                     if isinstance(val, Sym) and val.kind == "attr" and isinstance(val.args[0], Obj):
                         attr = val.args[1]
-                        plain = _attr_is_plain(program, c, attr) or any(
-                            "isinstance" in show(cd, -20) and attr in show(cd, -20) and ("<class Node>" in show(cd, -20) or "<class Term>" in show(cd, -20))
-                            for cd in conds)
+                        plain = _attr_is_plain(program, c, attr)
+                        if not plain:
+                            # decided exactly: with one query-builder object among plain values in self.<attr>, the renderer
+                            # must not reach create_param (the guard has to exclude *any* Node, not merely *all* Nodes)
+                            plain = not _param_reached_with_node(program, c, attr)
                         run.ob("C04/R3 create_param argument is plain data by construction", f"{c.qualname}.{attr}", plain, where=f"{part.src[2]}:{part.src[1]}")
                         if not plain:
                             dc = part.src[0].rsplit(".", 1)[0] if part.src else c.qualname
@@ -310,6 +312,35 @@ def check(program: Program, run: Run) -> None:
                     run.finding(f"C04/branch-disagree:{f.qualname}:alias",
                                 f"{f.qualname}: the inline branch emits the alias {ca} but the parameterised branch {cb}: the two renderings differ by more than the placeholder", where=f.loc(), rule="R4")
     _placeholders(program, run)
+
+
+def _param_reached_with_node(program: Program, c, attr: str) -> bool:
+    from ..symex import Evaluator, ListV, One
+    fld = program.find_cls("Field")
+    if fld is None:
+        return True
+    memo = program.__dict__.setdefault("_c04_param_probe", {})
+    if (c, attr) in memo:
+        return memo[(c, attr)]
+    kinds = program.attr_kinds(c).get(attr, set())
+    node = Obj(fld, {}, name="<Field among the values>")
+    plainv = Evaluator.typed("v", {"int"})
+    if kinds & {"list", "tuple", "set"}:
+        probes = [ListV((One(node), One(plainv)), "list"), ListV((One(plainv), One(node)), "list"), ListV((One(node),), "list")]
+    else:
+        probes = [node]
+    reached = False
+    for pv in probes:
+        try:
+            v, _ev = render(program, c, attrs={attr: pv})
+        except AnalysisError:
+            reached = True
+            break
+        if any(isinstance(part, SlotP) and "create_param" in show(part.recv) for part, _, _ in walk_parts(v)):
+            reached = True
+            break
+    memo[(c, attr)] = reached
+    return reached
 
 
 def _alts(v):
